@@ -120,3 +120,8 @@ func (w *WalletManager) VerifSyncStore() *txmgr.SyncStore                { retur
 func (w *WalletManager) VerifExistsUnminedTx(hash *wire.Hash) (*wire.MsgTx, error) {
 	return w.existsUnminedTx(hash)
 }
+
+// VerifConstructStakingTxOut exposes the staking output builder.
+func VerifConstructStakingTxOut(outputs []*StakingTxOut, mtx *wire.MsgTx) error {
+	return constructStakingTxOut(outputs, mtx)
+}
